@@ -22,11 +22,10 @@ def run(ctx):
     h = ctx.build_harness()
     hr = ctx.build_harness(race=True)
     ctx.tlc_must_pass("Pipelines", "MC_Pipelines", timeout=900)
-    g = ctx.tlc("Pipelines", "GEN_Pipelines", timeout=1800)
+    gen = os.path.join(ctx.tmp, "sched.out")
+    g = ctx.tlc("Pipelines", "GEN_Pipelines", timeout=1800, out_file=gen)
     if g["error"] or not g["finished"]:
         raise vlib.Broken("GEN_Pipelines failed:\n" + vlib.tail(g["out"]))
-    gen = os.path.join(ctx.tmp, "sched.out")
-    open(gen, "w").write(g["out"])
     # run-alone results, one fresh process per pipeline
     p, _ = ctx.run_harness(["c18", "-mode", "list"])
     names = p.stdout.split()
